@@ -174,11 +174,11 @@ impl<'a> G<'a> {
       12 => { self.feat("thematic-break"); self.from(&["***", "*****", "****"]).to_string() }
       13 => { self.feat("prose-table"); let c = self.pick(3) + 1; let hdr: Vec<String> = (0..c).map(|_| self.from(&["Name", "Value", "A b", "`c`"]).to_string()).collect(); let sep: Vec<&str> = (0..c).map(|_| "---").collect(); let r = self.pick(2) + 1;
         let rows: Vec<String> = (0..r).map(|_| format!("| {} |", (0..c).map(|_| self.from(&["1", "two words", "`x|y`", "**b**", "a, b"]).to_string()).collect::<Vec<_>>().join(" | "))).collect(); format!("| {} |\n|{}|\n{}", hdr.join(" | "), sep.join("|"), rows.join("\n")) }
-      14 | 15 => { self.feat("code-fence"); let f = self.from(&["```", "~~~", "````"]); let lang = self.from(&["", "python", "txt", "rust", "c", "mech:disabled"]); let body = self.from(&["print(1)", "x := 1\ny = 2", "a := b | c ;", "line one\n\nline three", "~~~\ninner\n~~~", "{not.mec}", "  indented"]); let body = if body.starts_with("~~~") && f == "~~~" { "inner" } else { body }; format!("{}{}\n{}\n{}", f, lang, body, f) }
+      14 | 15 => { self.feat("code-fence"); let f = self.from(&["```", "~~~", "````"]); let lang = self.from(&["", "python", "txt", "rust", "ebnf", "mech:disabled"]); let body = self.from(&["print(1)", "x := 1\ny = 2", "a := b | c ;", "line one\n\nline three", "~~~\ninner\n~~~", "{not.mec}", "  indented", "x := ;", "a := ( b | ;", ""]); let body = if body.starts_with("~~~") && f == "~~~" { "inner" } else { body }; format!("{}{}\n{}\n{}", f, lang, body, f) }
       16 | 17 => { self.feat("mech-fence"); let name = self.from(&["", ":ns1", ":Left", ":disabled", ":ns2"]); let s = self.stmt(); format!("```mech{}\n{}\n```", name, s) }
       18 => { self.feat("equation"); format!("$$ {}", self.from(&["x = y^2", "\\frac{a}{b}", "E = mc^2"])) }
       19 => { self.feat("footnote"); let t = self.inline(); format!("[^{}]: {}", self.from(&["1", "note"]), t) }
-      // (citations and ebnf fences are not generated: the text formatter emits both as HTML — listed known findings with pinned examples)
+      // (citations are not generated: the text formatter emits them as HTML — a listed known finding with a pinned example; a valid ebnf fence hits the other one)
       20 => { self.feat("paragraph"); self.inline() }
       21 => { self.feat("image"); format!("![{}]({}){}", self.from(&["caption", "", "a *b*"]), self.from(&["img.png", "a/b.svg"]), self.from(&["", "{width: \"50%\"}"])) }
       22 => { self.feat("float"); let t = self.inline(); format!("{} {}", self.from(&[">>", "<<"]), t) }
